@@ -55,6 +55,34 @@ theorem alignUp_zero {a : Nat} (ha : 0 < a) : alignUp 0 a = 0 := by
   · simpa using hk
   · rw [hk, Nat.mul_succ] at h2; omega
 
+/-- `y & -2^k` in 64-bit arithmetic clears the low `k` bits -/
+theorem and_neg_pow2 (y k : Nat) (hk : k ≤ 64) (hy : y < 2 ^ 64) :
+    y &&& (2 ^ 64 - 2 ^ k) = y / 2 ^ k * 2 ^ k := by
+  have hm : 2 ^ 64 - 2 ^ k = (2 ^ (64 - k) - 1) <<< k := by
+    rw [Nat.shiftLeft_eq, Nat.sub_mul, Nat.one_mul, ← Nat.pow_add, Nat.sub_add_cancel hk]
+  have hr : y / 2 ^ k * 2 ^ k = (y >>> k) <<< k := by
+    rw [Nat.shiftLeft_eq, Nat.shiftRight_eq_div_pow]
+  rw [hm, hr]
+  apply Nat.eq_of_testBit_eq
+  intro i
+  rw [Nat.testBit_and, Nat.testBit_shiftLeft, Nat.testBit_shiftLeft, Nat.testBit_two_pow_sub_one, Nat.testBit_shiftRight]
+  by_cases hik : k ≤ i
+  · have : k + (i - k) = i := by omega
+    rw [this]
+    by_cases hi : i < 64
+    · have : i - k < 64 - k := by omega
+      simp [hik, this]
+    · have hlt : y < 2 ^ i := Nat.lt_of_lt_of_le hy (Nat.pow_le_pow_right (by decide) (by omega))
+      simp [Nat.testBit_lt_two_pow hlt]
+  · simp [hik]
+
+/-- the source's `(x + a - 1) & static_cast<uintptr_t>(-a)` is the model's `alignUp x a` for every
+power of two `a` as long as `x + a - 1` does not overflow 64 bits -/
+theorem alignUp_eq_mask (x a k : Nat) (ha : a = 2 ^ k) (hk : k ≤ 64) (hx : x + a - 1 < 2 ^ 64) :
+    (x + a - 1) &&& (2 ^ 64 - a) = alignUp x a := by
+  subst ha
+  exact and_neg_pow2 _ k hk hx
+
 theorem alignUp_8 (x : Nat) : alignUp x 8 = (x + 7) / 8 * 8 := rfl
 
 theorem pow2_pos {a : Nat} (h : ∃ k, a = 2 ^ k) : 0 < a := by
